@@ -247,6 +247,17 @@ template <class D> struct Engine {
     if (!okk && orig_ok) { fail(kind, "not_ok", "", pd, "", "", ""); if (g_verbose) J.line("verbose dump|" + esc(d)); return 0; }
     return 2;
   }
+  // dump of the object the history works on; a dump that throws is a failure unless the object's invariant is broken
+  bool orig_dump(const T& x, std::string& d) {
+    try { d = dump(x); return true; }
+    catch (...) {
+      std::string e = pplv::exc_class(); bool ok = false;
+      try { ok = x.OK(); } catch (...) {}
+      if (ok) fail("-", "dump_exception", "", "", "", "", e);
+      else harvest("note|original_with_broken_invariant_cannot_be_dumped|" + name + "|" + e);
+      return false;
+    }
+  }
   static std::string apply(T& x, uint64_t opseed) {
     Rng r(opseed);
     try { D::op(r, x); return "ok"; } catch (...) { return "exc:" + pplv::exc_class(); }
@@ -264,7 +275,8 @@ template <class D> struct Engine {
     long rt0 = cnt.rt, lock0 = cnt.lock;
     for (long step = 0; step <= len; ++step) {
       phase("orig_dump");
-      std::string d = dump(x);
+      std::string d;
+      if (!orig_dump(x, d)) break;
       { uint64_t h = 1469598103934665603ull; for (char c : d) { h ^= (unsigned char)c; h *= 1099511628211ull; }
         dumps.insert(h); digest = (digest ^ h) * 1099511628211ull; }
       if (!D::status(d).empty()) states.insert(D::status(d));
@@ -297,7 +309,9 @@ template <class D> struct Engine {
         std::string ey = apply(*twin, opseed);
         if (ex != ey) { fail(twin_kind, "suffix_exc", "", "", "", "", ex + " vs " + ey); twin.reset(); continue; }
         phase("orig_view");
-        std::string dx = D::lock_view(x, twin_canon);
+        std::string dx;
+        try { dx = D::lock_view(x, twin_canon); }
+        catch (...) { std::string probe; if (!orig_dump(x, probe)) break; throw; }
         phase("twin_view");
         std::string dy = D::lock_view(*twin, twin_canon);
         bool differs = dx != dy;
@@ -1136,7 +1150,7 @@ int main(int argc, char** argv) {
     pid_t pid = fork();
     if (pid < 0) { perror("fork"); return 2; }
     if (pid == 0) {
-      struct rlimit rl; rl.rlim_cur = 120; rl.rlim_max = 125; setrlimit(RLIMIT_CPU, &rl);
+      struct rlimit rl; rl.rlim_cur = 15; rl.rlim_max = 17; setrlimit(RLIMIT_CPU, &rl);   // a batch normally needs < 1 s
       struct rlimit core; core.rlim_cur = core.rlim_max = 0; setrlimit(RLIMIT_CORE, &core);
       for (long h = next; h < bend; ++h) {
         g_sh->case_id = h; note("");
